@@ -2,6 +2,7 @@ use crate::common::*;
 
 pub mod c01;
 pub mod c02;
+pub mod c03;
 pub mod c04;
 pub mod c06;
 pub mod c07;
@@ -21,6 +22,7 @@ pub fn dispatch(engine: &str, cfg: &Cfg) -> i32 {
     match engine {
         "c01" => c01::run(cfg),
         "c02" => c02::run(cfg),
+        "c03" => c03::run(cfg),
         "c04" => c04::run(cfg),
         "c06" => c06::run(cfg),
         "c07" => c07::run(cfg),
